@@ -201,6 +201,7 @@ type vpC21Rec struct {
 	target string
 	host   string
 	id     int
+	body   string
 }
 
 type vpC21Answer struct {
@@ -293,8 +294,9 @@ func (n *vpC21Net) serve(raw *vpC21Conn, addr string, connID int) {
 			}
 			return
 		}
+		reqBody, _ := io.ReadAll(io.LimitReader(req.Body, 1<<20))
 		io.Copy(io.Discard, req.Body)
-		rec := vpC21Rec{conn: connID, addr: addr, tls: isTLS, sni: sni, method: req.Method, target: req.RequestURI, host: req.Host, id: -1}
+		rec := vpC21Rec{conn: connID, addr: addr, tls: isTLS, sni: sni, method: req.Method, target: req.RequestURI, host: req.Host, id: -1, body: string(reqBody)}
 		if m := vpC21IDRe.FindStringSubmatch(req.RequestURI); m != nil {
 			rec.id, _ = strconv.Atoi(m[1])
 		}
